@@ -19,23 +19,26 @@ NCPU = int(os.environ.get("VERIF_JOBS", str(os.cpu_count() or 8)))
 
 LIB_SRCS = ["half.cpp", "ImathFun.cpp", "ImathColorAlgo.cpp", "ImathMatrixAlgo.cpp", "ImathRandom.cpp"]
 
-COMMON = ["-std=gnu++17", "-ffp-contract=off", "-fno-strict-aliasing", "-Wno-deprecated-declarations", "-pthread"]
+COMMON = ["-ffp-contract=off", "-fno-strict-aliasing", "-Wno-deprecated-declarations", "-pthread"]
+STD_FAST = ["-std=gnu++17"]
+STD_SAN = ["-std=gnu++14"]  # Imath's own default (config/ImathSetup.cmake: IMATH_CXX_STANDARD 14)
 VARIANTS = {
     # name: (compiler, flags)
-    "fast": ("g++", ["-O2", "-fno-tree-vectorize"] + COMMON),
-    # the sanitizer binary is also the release-like configuration (-DNDEBUG); the fast binary keeps asserts on
-    "san": ("clang++", ["-O1", "-DNDEBUG", "-gline-tables-only", "-fsanitize=address,undefined", "-fno-sanitize-recover=undefined", "-fno-omit-frame-pointer"] + COMMON),
-    # arbitration binaries, built only when the two above disagree on a failure: same preprocessor
+    "fast": ("g++", ["-O2", "-fno-tree-vectorize"] + STD_FAST + COMMON),
+    # the sanitizer binary is also the release-like configuration of the library's defaults: -DNDEBUG and C++14;
+    # the fast binary keeps asserts on and uses C++17 (if-constexpr / __cpp_lib_* feature-test branches)
+    "san": ("clang++", ["-O1", "-DNDEBUG", "-gline-tables-only", "-fsanitize=address,undefined", "-fno-sanitize-recover=undefined", "-fno-omit-frame-pointer"] + STD_SAN + COMMON),
+    # arbitration binaries, built only when the two above disagree on a failure: same preprocessor and language
     # configuration as the finder, but the other compiler
-    "arb_ndebug": ("g++", ["-O2", "-DNDEBUG", "-fno-tree-vectorize"] + COMMON),
-    "arb_debug": ("clang++", ["-O1"] + COMMON),
-    "fuzz": ("clang++", ["-O1", "-fsanitize=fuzzer,address,undefined", "-fno-sanitize-recover=undefined", "-DVP_FUZZ=1"] + COMMON),
+    "arb_ndebug": ("g++", ["-O2", "-DNDEBUG", "-fno-tree-vectorize"] + STD_SAN + COMMON),
+    "arb_debug": ("clang++", ["-O1"] + STD_FAST + COMMON),
+    "fuzz": ("clang++", ["-O1", "-fsanitize=fuzzer,address,undefined", "-fno-sanitize-recover=undefined", "-DVP_FUZZ=1", "-std=gnu++20"] + COMMON),
 }
-LIBFLAGS_OVERRIDE = {"fuzz": ["-O1", "-fsanitize=fuzzer-no-link,address,undefined", "-fno-sanitize-recover=undefined"] + COMMON}
+LIBFLAGS_OVERRIDE = {"fuzz": ["-O1", "-fsanitize=fuzzer-no-link,address,undefined", "-fno-sanitize-recover=undefined", "-std=gnu++20"] + COMMON}
 
 # property table ---------------------------------------------------------------
 PROPS = {
-    "C01": dict(tu="c01_half.cpp", san_scale=1.0 / 64, fuzz_s=0),
+    "C01": dict(tu=["c01_half.cpp", "c01_fpexc.cpp"], san_scale=1.0 / 64, fuzz_s=0),
     "C02": dict(tu="c02_backends.cpp", variants=["fast"], prebuild="c02", link_extra=["-ldl"], fuzz_s=0),
     "C03": dict(tu="c03_halftype.cpp", san_scale=1.0 / 64, fuzz_s=0,
                 extras=[dict(src="c03_halffunc_ls.cpp", flags=["-std=c++17", "-O1", "-DIMATH_HAVE_LARGE_STACK=1"], compilers=["g++", "clang++"], libs=["half.cpp"],
@@ -59,7 +62,7 @@ PROPS = {
     "C17": dict(tu="c17_scalar.cpp", san_scale=1.0 / 64, fuzz_s=0),
     "C18": dict(tu="c18_random.cpp", san_scale=0.1, fuzz_s=0),
     "C19": dict(kind="py", script="py/c19_arrays.py", shards=8),
-    "C20": dict(kind="py", script="py/c20_vectorised.py", pool_shim=True, shards=8),
+    "C20": dict(kind="py", script="py/c20_vectorised.py", pool_shim=True, shards=8, race_pass=True, race_shards=8),
 }
 
 
@@ -215,6 +218,8 @@ C02_CONFIGS = [
     ("clang-c11-table", "clang", "c", ["-std=gnu11"], "default"),
     ("clang-c11-notable", "clang", "c", ["-std=gnu11", "-DIMATH_HALF_NO_LOOKUP_TABLE"], "default"),
     ("gcc-c11-cmake-lookup-off", "gcc", "c", ["-std=gnu11"], "lookup_off"),
+    ("gxx17-fpexc", "g++", "c++", ["-std=gnu++17", "-DIMATH_HALF_ENABLE_FP_EXCEPTIONS"], "default"),
+    ("gcc-c11-fpexc", "gcc", "c", ["-std=gnu11", "-DIMATH_HALF_ENABLE_FP_EXCEPTIONS"], "default"),
     ("gxx17-f16c", "g++", "c++", ["-std=gnu++17", "-mf16c"], "default"),
     ("clangxx17-f16c", "clang++", "c++", ["-std=gnu++17", "-mf16c"], "default"),
     ("gcc-c11-f16c", "gcc", "c", ["-std=gnu11", "-mf16c"], "default"),
@@ -451,7 +456,7 @@ def run_cpp(prop, tier, seed, only=None):
                 if rc == 1 or rc == 99 or rc < 0:
                     violations.append((f["replay"], "%s: %s | case: %s" % (f["key"], f["msg"], f["case"])))
                 else:
-                    # the two binaries differ in compiler AND in NDEBUG: arbitrate with the other compiler in the
+                    # the two binaries differ in compiler AND in NDEBUG and language standard: arbitrate with the other compiler in the
                     # finder's preprocessor configuration before calling it a toolchain problem
                     arb = "arb_debug" if name == "fast" else "arb_ndebug"
                     try:
@@ -460,7 +465,7 @@ def run_cpp(prop, tier, seed, only=None):
                     except BuildError as e:
                         rc2, out2 = 2, str(e)[-300:]
                     if rc2 == 1:
-                        violations.append((f["replay"], "%s: %s | case: %s [only in the %s configuration; confirmed by both compilers]" % (f["key"], f["msg"], f["case"], "asserts-on" if name == "fast" else "-DNDEBUG")))
+                        violations.append((f["replay"], "%s: %s | case: %s [only in the %s configuration; confirmed by both compilers]" % (f["key"], f["msg"], f["case"], "asserts-on -std=gnu++17" if name == "fast" else "-DNDEBUG -std=gnu++14")))
                     else:
                         errors.append("toolchain disagreement on %s (found by %s binary, other binary rc=%d, arbitration rc=%d): %s" % (f["replay"], name, rc, rc2, f["msg"]))
     # --- 3b. extra configuration programs (stand-alone, print FAIL lines)
@@ -689,6 +694,8 @@ def setup():
         import pydriver
         info = pydriver.build_pyimath()
         pydriver.build_poolshim(info)
+        tinfo = pydriver.build_pyimath("tsan")  # C20 race pass
+        pydriver.build_poolshim(tinfo)
     except BuildError as e:
         print("ERROR PyImath build failed: " + str(e)[-1500:])
         ok = False
